@@ -727,3 +727,46 @@ Proof.
   apply Rmult_lt_reg_r with (/ Rabs lam); [apply Rinv_0_lt_compat; exact Hpos|].
   rewrite Rmult_assoc, Rinv_r by lra. lra.
 Qed.
+
+(* ---- accuracy, partial: 1 x 1 matrices (exact arithmetic) -------------------- *)
+Lemma pm_loop_first {T} {NT : Num T} (A : arr T) es ev x next nx ea :
+  pm_step A ev x = Ok (next, nx, ea) -> nltb ea es = true ->
+  pm_loop (N.to_nat MAX_ITERATIONS) A es ev x 0%N = Ok (next, nx, 0%N).
+Proof.
+  intros Hs Hlt. destruct (N.to_nat MAX_ITERATIONS) as [|f] eqn:E.
+  - exfalso. unfold MAX_ITERATIONS in E. lia.
+  - cbn [pm_loop]. rewrite Hs, Hlt. reflexivity.
+Qed.
+
+Ltac crunch_arr :=
+  repeat (unfold adivs, tabulate, aget, amul, adot, atranspose, is1x1, as_scalar_unchecked;
+          cbn -[Rmult Rdiv Rltb Rplus Rminus Rabs]).
+
+Lemma pm_init_1x1 (a : R) : a <> 0 -> pm_init (mk_arr 1 1 [a]) = Ok (a, mk_arr 1 1 [1]).
+Proof.
+  intros Ha. unfold pm_init, scaling_component. crunch_arr.
+  replace (a * 1) with a by ring.
+  destruct (Rltb 0 a); crunch_arr; replace (a / a) with 1 by (field; exact Ha); reflexivity.
+Qed.
+
+Lemma pm_step_1x1 (a : R) : a <> 0 ->
+  pm_step (mk_arr 1 1 [a]) a (mk_arr 1 1 [1]) = Ok (a, mk_arr 1 1 [1], 0).
+Proof.
+  intros Ha. unfold pm_step, scaling_component. crunch_arr.
+  replace (a * 1) with a by ring.
+  destruct (Rltb 0 a); crunch_arr;
+    replace (a / a) with 1 by (field; exact Ha);
+    replace (1 * (a * 1) / (1 * 1)) with a by field;
+    replace ((a - a) / a) with 0 by (field; exact Ha); rewrite Rabs_R0; reflexivity.
+Qed.
+
+Lemma c13_accuracy_1x1_R : forall a es : R, a <> 0 -> 0 < es ->
+  power_method [[a]] es = Ok (a, mk_arr 1 1 [1]).
+Proof.
+  intros a es Ha Hes. unfold power_method, power_method_fuel, try_from.
+  cbn [forallb length Nat.eqb andb concat app bind ah aw negb orb].
+  rewrite (pm_init_1x1 a Ha). cbn [bind fst snd].
+  rewrite (pm_loop_first _ es _ _ _ _ _ (pm_step_1x1 a Ha)).
+  - reflexivity.
+  - cbn [nltb RNum]. apply Rltb_true. exact Hes.
+Qed.
